@@ -1,25 +1,38 @@
 #!/bin/bash
 # usage: run_seeds.sh [seed dirs...]
-# Applies each seeded change (/verif/seeded/<id>-<n>/patch.diff) to a scratch worktree of /repo's HEAD (never to /repo itself),
-# runs every claimed quick check against that worktree from a scratch copy of /verif, and prints which checks report a violation.
+# For each seeded change (/verif/seeded/<id>-<n>/patch.diff): apply it to a scratch worktree of /repo's HEAD (never to /repo
+# itself), run the claimed quick checks whose cone contains the touched packages against that worktree from a scratch copy of
+# /verif, print which checks report a violation, remove the scratch copies.
 set -u
-S=/tmp/seedrun
-rm -rf $S/verif; mkdir -p $S
-git -C /repo worktree remove --force $S/repo 2>/dev/null; rm -rf $S/repo
-git -C /repo worktree add -q --detach $S/repo HEAD || exit 2
-rsync -a --exclude .git --exclude out --exclude evidence /verif/ $S/verif/
 seeds="$@"; [ -z "$seeds" ] && seeds=$(ls -d /verif/seeded/*/)
-checks=$(python3 -c "import json;print(' '.join(c['property_id'] for c in json.load(open('/verif/MANIFEST.json'))['checks']))")
-for d in $seeds; do
-  d=${d%/}; name=$(basename $d)
-  if ! git -C $S/repo apply --3way $d/patch.diff >/dev/null 2>&1; then git -C $S/repo reset -q --hard; git -C $S/repo clean -fdq; echo "$name: patch does not apply to the current tree"; continue; fi
-  git -C $S/repo reset -q
-  caught=""
-  for p in $checks; do
-    out=$(cd $S/verif && bin/govc check -p $p -repo $S/repo -verif $S/verif 2>&1); rc=$?
-    if [ $rc -ne 0 ]; then ob=$(echo "$out" | grep -m2 -o 'obligation=[^ ]*' | sed 's/obligation=//' | tr '\n' ' '); caught="$caught $p[$ob]"; fi
-  done
-  git -C $S/repo checkout -q -- . ; git -C $S/repo clean -fdq
-  echo "$name: caught by:${caught:- NONE}"
-done
-git -C /repo worktree remove --force $S/repo; rm -rf $S/verif
+claimed=$(python3 -c "import json;print(' '.join(c['property_id'] for c in json.load(open('/verif/MANIFEST.json'))['checks']))")
+one() {
+  d=${1%/}; name=$(basename $d); S=/tmp/seedrun-$name
+  rm -rf $S; mkdir -p $S
+  git -C /repo worktree add -q --detach $S/repo HEAD || return
+  rsync -a --exclude .git --exclude out --exclude evidence /verif/ $S/verif/
+  if ! git -C $S/repo apply --3way $d/patch.diff >/dev/null 2>&1; then echo "$name: patch does not apply to the current tree"; else
+    git -C $S/repo reset -q
+    files=$(grep '^+++ b/' $d/patch.diff | sed 's|+++ b/||')
+    want=""
+    for f in $files; do case $f in
+      match/*) want="$want C01 C02 C03 C09 C12 C06";;
+      core/*) want="$want C04 C05 C06 C07 C08 C09 C12 C13 C18";;
+      interpreters/*) want="$want C06 C07 C08 C10 C12";;
+      sio/*) want="$want C14 C15 C13";;
+      tools/expect/*) want="$want C19";;
+      tools/*) want="$want C20";;
+      cmd/mcrew/*) want="$want C16 C14";;
+    esac; done
+    caught=""
+    for p in $(echo $want | tr ' ' '\n' | sort -u); do
+      echo " $claimed " | grep -q " $p " || continue
+      out=$(cd $S/verif && bin/govc check -p $p -repo $S/repo -verif $S/verif 2>&1); rc=$?
+      if [ $rc -ne 0 ]; then ob=$(echo "$out" | grep -m2 -o 'obligation=[^ ]*' | sed 's/obligation=//' | tr '\n' ' '); caught="$caught $p[$ob]"; fi
+    done
+    echo "$name: caught by:${caught:- NONE}"
+  fi
+  git -C /repo worktree remove --force $S/repo 2>/dev/null; rm -rf $S
+}
+export -f one; export claimed
+echo $seeds | tr ' ' '\n' | xargs -P 3 -I{} bash -c 'one {}'
